@@ -483,8 +483,15 @@ impl Worker {
             }
             Err(RecvTimeoutError::Disconnected) => {
                 let _ = self.child.wait();
-                std::thread::sleep(Duration::from_millis(30));
-                let e = self.last_err.lock().unwrap().clone();
+                // the stderr reader thread may still be draining the pipe: wait for the cause line
+                let mut e = String::new();
+                for _ in 0..100 {
+                    e = self.last_err.lock().unwrap().clone();
+                    if !e.is_empty() {
+                        break;
+                    }
+                    std::thread::sleep(Duration::from_millis(20));
+                }
                 self.respawn();
                 // "C08-ALLOC-REFUSED <size> <site>"
                 let f: Vec<&str> = e.split(' ').collect();
@@ -567,7 +574,9 @@ pub fn run_and_record(w: &mut Worker, sink: &mut vcommon::Sink, line: String, ta
             fails.push(format!("ABORT (process aborted; refused allocation request of {} bytes from {})", o.max_req, o.alloc_site));
         }
         a if a.starts_with("INVALID") => {
-            tags.push_str(" kf:invalid-array");
+            // INVALID:col<N>:<slug of the validation error>  ->  kf:invalid-array:<slug>
+            let what = a.splitn(3, ':').nth(2).unwrap_or(a.trim_start_matches("INVALID:"));
+            tags.push_str(&format!(" kf:invalid-array:{}", what));
             fails.push(format!("accepted input produced an invalid array: {}", a));
         }
         _ => {}
